@@ -35,6 +35,16 @@ CHECKS = {
              '(p, L(p), blob(p)) triples in storage order, each evaluation at most once; replay over evaluation modes with an instrumented '
              'likelihood whose call log every returned row is checked against.',
         note='Trusted: Lean kernel + standard axioms; harness/corerec.py + corechecks.py (outside instrumentation, abstraction of the real state); numerics (bounds, networks, likelihood values) are oracles: theorems hold for every oracle answer subject to the stated hypotheses (WF = proposals fresh, in the cube and inside their bound, i.e. C07; PhaseOK/TPhase = phase discipline of run()).', tech='Lean 4 proof (alignment refinement parallel arrays -> rows) + replay with instrumented likelihood', ref='DESIGN.md §3 C03'),
+    'C04': dict(
+        text='Lean 4 theorems on a finite uniform space: shells partition the cube; every shell term, hence the evidence estimator, the '
+             'posterior numerators and the summed shell volumes are unbiased for any bounds, any likelihood, any numbers of proposals '
+             '(exploration discarded; with exploration kept only conditionally on the bounds). Partial: float rounding, PRNG quality, '
+             'Monte-Carlo error of bound volumes and convergence are validated by seed ensembles on closed-form problems (Student-t tests '
+             'across seeds at family-wise alpha 1e-9), not proved.',
+        note='Trusted: Lean kernel + standard axioms; harness/c04.py (closed-form evidences, statistics); the composition with C01 (partition), '
+             'C02 (estimator form) and C08 (uniform proposals) is by statement, not by a single end-to-end theorem. Power of the quick '
+             'ensemble (16 seeds/family) is low (offsets of several reported sigma); the thorough ensemble (160 seeds) resolves ~1.5 % in Z.',
+        tech='Lean 4 proof (finite-space unbiasedness), partial; seed-ensemble statistical validation', ref='DESIGN.md §3 C04'),
     'C05': dict(
         text='Lean 4 theorems: loop-slice laws for the run() loop as iteration of a deterministic step (slices, chains of limits, stop after any '
              'number of batches, idempotence) + `decide` theorems over persistence tables regenerated from sampler.py (incremental update covers '
@@ -125,7 +135,7 @@ CHECKS = {
         tech='Lean 4 proof + AST translator + scripted-RNG exact differential', ref='DESIGN.md §3 C14'),
 }
 
-READY = ['C01', 'C02', 'C03', 'C05', 'C06', 'C07', 'C08', 'C09', 'C10', 'C11', 'C12', 'C13', 'C14', 'C15', 'C16']
+READY = ['C01', 'C02', 'C03', 'C04', 'C05', 'C06', 'C07', 'C08', 'C09', 'C10', 'C11', 'C12', 'C13', 'C14', 'C15', 'C16']
 
 PENDING_REASON = 'check under construction in this build round; not yet registered (see DESIGN.md §6 build order)'
 
